@@ -74,7 +74,7 @@ func NewEnv(w *World, yaml string, o EnvOpts) (*Env, error) {
 
 func NewEnvProject(w *World, dir string, prj *types.Project, o EnvOpts) (*Env, error) {
 	po := (&app.ProjectOpts{}).WithProject(prj).WithOrderedShutDown(o.Ordered).WithProcessesToRun(o.ToRun).WithNoDeps(o.NoDeps).
-		WithMainProcess(o.Main).WithMainProcessArgs(o.MainArgs)
+		WithMainProcess(o.Main).WithMainProcessArgs(o.MainArgs).WithIsTuiOn(true)
 	r, err := app.NewProjectRunner(po)
 	if err != nil {
 		if dir != "" {
@@ -170,6 +170,7 @@ const (
 	RunReturned WaitOutcome = iota
 	RunHang                 // silence with nothing alive and nothing pending
 	RunWatchdog             // outer watchdog with activity: inconclusive
+	RunStalled              // silence while a simulated command is still alive and nothing will end it
 )
 
 // WaitRun waits for Run() to return. It reports a hang when no event was
@@ -185,8 +186,11 @@ func (e *Env) WaitRun(silence, max time.Duration) WaitOutcome {
 			return RunReturned
 		case <-tick.C:
 		}
-		if e.W.SilenceFor() > silence && e.W.AliveCount() == 0 && e.Pending() == 0 {
-			return RunHang
+		if e.W.SilenceFor() > silence && e.Pending() == 0 {
+			if e.W.AliveCount() == 0 {
+				return RunHang
+			}
+			return RunStalled
 		}
 		if time.Now().After(deadline) {
 			return RunWatchdog
